@@ -93,6 +93,19 @@ class C09(Prop):
                 ctx.violate("crc-mixed:" + ln.split()[0], f"with several CRC16<> instantiations used in one process, `{ln[:60]}` = {a}, expected {w}",
                             {"stream": "crc-mixed", "ops": mixed[:i + 1][-6:], "impl": a, "expected": w})
                 break
+        # histories of the engine object: bytes fed (and get() called) before the first reset(), repeated use of one object
+        hl, hw = [], []
+        for m in msgs[100:100 + (200 if quick else 2000)]:
+            k = rng.randrange(0, 6)
+            pre = [rng.randrange(256) for _ in range(k)]
+            hl.append(f"crc_hist {k} " + " ".join(map(str, pre + m))); hw.append(spec_crc(m))
+        for ln, a, w in zip(hl, ctx.run_impl(exe, hl, "crc-hist"), hw):
+            ctx.evaluations += 1
+            ctx.stat("hist:pre%d" % int(ln.split()[1]))
+            if a != f"{w} {w}":
+                ctx.violate("crc-hist", f"engine with {ln.split()[1]} byte(s) fed before its first reset(): reset/feed/get twice gave {a}, the M17 CRC is {w}",
+                            {"stream": "crc-hist", "ops": [ln], "impl": a})
+                break
         # message ++ crc bytes checks to zero on the implementation
         chk = []
         for m, b in zip(msgs[:500], implb):
